@@ -452,6 +452,32 @@ func (v *Verifier) verifyFunc(key string, timeout int, tier string) *FuncReport 
 				}
 			}()
 		}
+		// ghost assignments of the contract ("ghost g = e"): executed at entry, with
+		// e read in the entry state; g must be a ghost variable the contract may modify
+		for _, gc := range con.Ghost {
+			g, ok := v.db.Ghosts[gc.Label]
+			if !ok {
+				x.failed = "ghost assignment to undeclared ghost variable " + gc.Label
+				break
+			}
+			val := env.eval(gc.Expr)
+			gt := env.resolveTypeStr(g.Type)
+			ls := leavesOf(gt)
+			ts := flatten(val)
+			if len(ls) != len(ts) {
+				x.failed = "ghost assignment " + gc.Label + ": shape mismatch"
+				break
+			}
+			for i, l := range ls {
+				key := "GH:" + gc.Label + l.Path
+				x.regKey(key, l.Sort)
+				if !x.mods.all && x.mods.allows(key, "") != "true" {
+					ob := x.ob("frame", "ghost#"+sanitize(key), "ghost assignment to "+key+" outside the modifies clause", nil)
+					s.check(ob, "false")
+				}
+				s.heap.m[key] = ts[i]
+			}
+		}
 		o := x.ob("cover", "entry", "precondition satisfiable", nil)
 		s.cover(o)
 		x.run(s, fn.Blocks[0], nil, nil)
